@@ -298,6 +298,14 @@ func (r *Runner) Go(kind string, tok int, phase string) *Call {
 			c.Val, c.Err = r.CL.Block(r.ctx, tok)
 		case "note":
 			r.CL.Note(tok)
+		case "sub":
+			var ch <-chan int
+			ch, c.Err = r.CL.Sub(r.ctx, tok, 2)
+			if c.Err == nil && ch != nil {
+				for range ch {
+				}
+				c.Val = tok
+			}
 		}
 		c.Returned = true
 		r.E.RT.Log("c.ret", "tok", tok, "err", c.Err != nil)
@@ -355,7 +363,7 @@ func (r *Runner) Verdicts(res *fw.Result, sig string, grace time.Duration) {
 		}
 		execs := r.E.H.C.Execs(c.Tok)
 		switch c.Kind {
-		case "count", "block":
+		case "count", "block", "sub":
 			if execs > 1 {
 				res.Add(fw.Finding{Kind: "monitor", Signature: sig + " executed twice",
 					Detail: fmt.Sprintf("untagged call %s(%d) was executed %d times by the server", c.Kind, c.Tok, execs)})
@@ -931,7 +939,7 @@ func WireCounts(res *fw.Result, run *Runner, sig string) {
 		if json.Unmarshal([]byte(f.Text), &m) != nil || len(m.Params) == 0 {
 			continue
 		}
-		if tok, ok := m.Params[0].(float64); ok && (m.Method == "SH.Count" || m.Method == "SH.Block" || m.Method == "SH.Note") {
+		if tok, ok := m.Params[0].(float64); ok && (m.Method == "SH.Count" || m.Method == "SH.Block" || m.Method == "SH.Note" || m.Method == "SH.Sub") {
 			counts[int(tok)]++
 			if m.Method == "SH.Note" && m.ID != nil {
 				res.Add(fw.Finding{Kind: "monitor", Signature: sig + " notification with id", Detail: "a notification-tagged call was written with an id: " + f.Text})
